@@ -21,7 +21,8 @@ RULE = (
 
 def shared_lambda_oracle(ctx):
     """One user-owned ast.Lambda object passed to operator calls on two streams (the second one typed):
-    the first stream's query must not change.  On the pinned tree it does (known finding F10)."""
+    the first stream's query must not change.  (It did on the pinned tree: formerly the open finding
+    C11-shared-ast-lambda-object, repaired; a recurrence is an ordinary violation.)"""
     import ast
     from typing import Iterable
     from func_adl import EventDataset
@@ -60,8 +61,7 @@ def shared_lambda_oracle(ctx):
                 if after != before:
                     ctx.violate({"body": body, "op": op, "second_dataset": type(second_ds).__name__,
                                  "before": ast.unparse(ast.parse(before and "0")) if False else before[-200:], "after": after[-200:]},
-                                "C11: passing the same ast.Lambda object to an operator on a second (typed) stream changed the first stream's query",
-                                key="C11-shared-ast-lambda-object")
+                                "C11: passing the same ast.Lambda object to an operator on a second (typed) stream changed the first stream's query")
                     before = after
 
 
